@@ -12,13 +12,14 @@
   2. SQL histories
      case        ::= sql <pagesize> <cache> | op ; op ; …       (ops are not interpreted here, only counted)
      observation ::= obs <step> ; <step> ; …                     (one per op)
-     step        ::= r=<res> T=<total> F=<first>:<last> R=<root,…> <page token>*
+     step        ::= r=<res> T=<total> F=<first>:<last> R=<root[c|d],…> [X=<n>] <page token>*
+                     (root mark c: the catalog row's creator was rolled back; d: its deleter was rolled back)
      page token  ::= L<id>:<prev>:<next>:<slot>@<p1+p2…>,…   | I<id>:<prev>:<next>:<right>:<left>[@<p1+p2…>],…
                    | O<id>:<next> | B<id>
      Only tokens that changed since the previous step are listed (the driver keeps the page table).
      Verdict `ok` iff after **every** step `checkOwnership` (proved sound in Thm/C11) accepts the dump, and between
-     consecutive steps the file did not grow while the page at the head of the free list stayed where it was
-     (reuse before growth).
+     consecutive steps the file did not grow while the free list of the earlier step was still there, untouched, at the head
+     of the later one (reuse before growth).
 -/
 import AxVerif.Model.Pages
 namespace AxVerif.PagerDriver
@@ -26,7 +27,8 @@ open AxVerif.Pages AxVerif.BTree
 
 def parseFlags (flags : List String) : Defects :=
   { deallocKeepsNext := flags.contains "deallocKeepsNext",
-    dividerSharesChain := flags.contains "dividerSharesChain" }
+    dividerSharesChain := flags.contains "dividerSharesChain",
+    dropRollbackFreed := flags.contains "dropRollbackFreed" }
 
 def num (s : String) : Option Nat :=
   if s.isEmpty || s.length > 7 || !s.all Char.isDigit then none else s.toNat?
@@ -248,8 +250,13 @@ def stepObs (D : Defects) (i : Nat) (st : QSt) (obs : String) : Except String QS
       | some a, some b => pure (a, b)
       | _, _ => throw s!"op{i} bad F="
     | _ => throw s!"op{i} bad F="
-  let roots ← match allSome (((← need "R").splitOn ",").map num) with
-    | some l => pure l
+  -- a root may carry a mark: `c` = creator rolled back, `d` = deleter rolled back
+  let parseRoot (w : String) : Option (Nat × Bool) :=
+    if w.endsWith "d" then (num (w.dropEnd 1).toString).map (·, true)
+    else if w.endsWith "c" then (num (w.dropEnd 1).toString).map (·, false)
+    else (num w).map (·, false)
+  let roots ← match allSome (((← need "R").splitOn ",").map parseRoot) with
+    | some l => pure ((l.filter fun r => !(D.dropRollbackFreed && r.2)).map (·.1))
     | none => throw s!"op{i} bad R="
   let mut tab := st.tab
   for w in ws do
@@ -261,11 +268,11 @@ def stepObs (D : Defects) (i : Nat) (st : QSt) (obs : String) : Except String QS
   let f := tab.toDump total first last roots
   if !FileDump.checkWith D f then throw s!"op{i} {whyNot D f}"
   let fl := (f.freeWalk).getD []
-  -- reuse before growth: the file must not grow while the head of the free list is left where it is
-  if st.started && total > st.prevTotal then
-    match st.prevFree.head?, fl.head? with
-    | some a, some b => if a = b then throw s!"op{i} grew-with-free-pages {a}"
-    | _, _ => pure ()
+  -- reuse before growth: the file must not grow while the free pages of the previous step are all still there, untouched, at
+  -- the head of the list (the allocator pops at the head and appends at the tail: a statement that extends the file has
+  -- emptied the list first)
+  if st.started && total > st.prevTotal && !st.prevFree.isEmpty && st.prevFree.isPrefixOf fl then
+    throw s!"op{i} grew-with-free-pages {st.prevFree.headD 0}"
   if st.started && total < st.prevTotal then throw s!"op{i} total-pages-shrank {total}"
   pure { tab := tab, prevFree := fl, prevTotal := total, started := true }
 
